@@ -7,7 +7,7 @@ go/parser (so it must be valid Go composite-literal syntax) and compared with th
 trees the parsed dump is compared with a reflection walk of the tree."""
 import json
 
-from . import core, walk, inputs
+from . import core, walk, inputs, cli
 
 
 def content(v):
@@ -118,6 +118,13 @@ def run(tier):
             check.violation({"class": f["c"], "kind": f.get("kind"), "label": f.get("label")},
                             {"src": p["src"], "ver": p["ver"], "fail": f})
     check.cov["parsed_trees"] = n
+    # the command line tool's -d: stdout must be the library's dump of each file, in the order of the path lines
+    import random
+    rng = random.Random(core.seed() + 16)
+    pool = [p["src"] for p in progs if p["ver"] == "7.4"]
+    files = rng.sample(pool, min(len(pool), 200 if tier == "quick" else 2000))
+    for sig, rep in cli.check_cli(check, wp, files, "7.4", [["-d", "-p"]], procs_list=(1, 16) if tier == "quick" else (1, 2, 4, 16)):
+        check.violation(sig, rep)
     check.assumptions += ["NodeSchema.tla (frozen); go/parser as the judge of Go syntax; the dumper terminates each literal "
                           "with a comma, so the dump is parsed as an element of a list"]
     return check.finish({"exhaustive": True,
